@@ -1921,7 +1921,7 @@ func (ss *ServerSession) receivingMethodHandler() MethodHandler {
 func (ss *ServerSession) getConn() *jsonrpc2.Connection { return ss.conn }
 
 // handle invokes the method described by the given JSON RPC request.
-func (ss *ServerSession) handle(ctx context.Context, req *jsonrpc.Request) (any, error) {
+func (ss *ServerSession) handle(ctx context.Context, req *jsonrpc.Request) (_ any, err error) {
 	ss.mu.Lock()
 	initialized := ss.state.InitializeParams != nil
 	ss.mu.Unlock()
@@ -1985,6 +1985,19 @@ func (ss *ServerSession) handle(ctx context.Context, req *jsonrpc.Request) (any,
 			ss.updateState(func(state *ServerSessionState) {
 				state.InitializeParams = validatedMeta.initializeParams
 			})
+			// The request may still be refused below (unknown method, undecodable
+			// parameters). A refused request must not leave the session looking
+			// initialized, or later legacy traffic would be served without any
+			// handshake: take the params back unless the request is served.
+			defer func() {
+				if err != nil {
+					ss.updateState(func(state *ServerSessionState) {
+						if state.InitializeParams == validatedMeta.initializeParams {
+							state.InitializeParams = nil
+						}
+					})
+				}
+			}()
 		}
 	}
 
